@@ -148,6 +148,56 @@ def gen_ops(rng, malformed=False):
             ops.append(['p', name, sig, rng.choice([0, 1, 1]), rng.choice([0, 0, 1]), rng.choice('ttfi')])
     if rng.random() < 0.1:
         ops.append(['x'])
+    # re-declarations after the XML was read: an existing member is added again, looking partly or wholly
+    # unchanged (same name and signature, another access / change-notification mode; same input, other output
+    # signature; identical; deleted and re-added) - what a too clever `_xml` invalidation would miss
+    if not malformed and rng.random() < 0.4:
+        for _ in range(rng.choice([1, 1, 2, 3])):
+            live = {'m': {}, 's': {}, 'p': {}}
+            for op in ops:
+                if op[0] in ('m', 's', 'p'):
+                    live[op[0]][op[1]] = op
+                elif op[0] in ('dm', 'ds', 'dp'):
+                    live[op[0][1]].pop(op[1], None)
+            kinds = [k for k in 'msp' if live[k]]
+            if not kinds:
+                break
+            k = rng.choice(kinds + (['p'] if 'p' in kinds else []))
+            old = list(rng.choice(sorted(live[k].values(), key=lambda o: o[1])))
+            ops.append(['x'])
+            if rng.random() < 0.15:
+                ops.append(['d' + k, old[1]])
+                if rng.random() < 0.5:
+                    ops.append(['x'])
+            r = rng.random()
+            new = list(old)
+            if k == 'p':
+                if r < 0.6:
+                    # same name and type, another access and / or emits mode
+                    while new[3:6] == old[3:6]:
+                        new[3], new[4], new[5] = rng.choice([0, 1]), rng.choice([0, 1]), rng.choice('tfi')
+                elif r < 0.8:
+                    new[2] = gen_type(rng, rng.choice([0, 1, 2]))
+            elif k == 'm':
+                if r < 0.4:
+                    to = gen_types(rng)
+                    new[3], new[5] = ''.join(to), len(to)
+                elif r < 0.6:
+                    ti = gen_types(rng)
+                    new[2], new[4] = ''.join(ti), len(ti)
+                elif r < 0.75 and new[4]:
+                    # same number of arguments, other types
+                    ti = [gen_type(rng, 1) for _ in range(new[4])]
+                    new[2] = ''.join(ti)
+            else:
+                if r < 0.5:
+                    t = gen_types(rng)
+                    new[2], new[3] = ''.join(t), len(t)
+                elif r < 0.7 and new[3]:
+                    new[2] = ''.join(gen_type(rng, 1) for _ in range(new[3]))
+            ops.append(new)
+            if rng.random() < 0.3:
+                ops.append(['x'])
     return ops
 
 
@@ -833,6 +883,21 @@ def doc_stats(ctx, case):
                 for op in fm['p'].values():
                     ctx.stat('access r=%d w=%d' % (op[3], op[4]))
                     ctx.stat('emitsOnChange=' + op[5])
+    for p, ifs in case['objs']:
+        if p == case['path']:
+            for d in ifs:
+                seen, read = {}, False
+                for op in d['ops']:
+                    if op[0] == 'x':
+                        read = True
+                    elif op[0] in ('m', 's', 'p'):
+                        key = (op[0], op[1])
+                        if key in seen and read:
+                            same_sig = op[2:3 if op[0] != 'm' else 4] == seen[key][2:3 if op[0] != 'm' else 4]
+                            ctx.stat('redeclared-after-read kind=%s %s' % (op[0], 'same-signature' if same_sig else 'other-signature'))
+                            if op[0] == 'p' and same_sig and op[3:5] != seen[key][3:5]:
+                                ctx.stat('redeclared-after-read property same type, other access')
+                        seen[key] = op
     ctx.stat('replace=%d known=%d' % (case['replace'], len(case['known'])))
     ctx.stat('objkind=' + case['objkind'])
     if any(d.get('same_object') for d in case['known']):
@@ -912,12 +977,17 @@ def fixed_cases():
     cached = {'name': 'org.a.D', 'ops': [['m', 'A', 'i', '', 1, 0], ['x'], ['m', 'B', 's', '', 1, 0], ['x'],
                                          ['p', 'P', 'i', 1, 0, 't'], ['x'], ['dm', 'A'], ['x'], ['s', 'S', 'i', 1],
                                          ['x'], ['ds', 'S'], ['x'], ['dp', 'P']]}
+    redecl = {'name': 'org.a.E', 'ops': [['p', 'P', 'i', 1, 0, 't'], ['m', 'M', 'i', 's', 1, 1], ['s', 'S', 'i', 1],
+                                         ['x'], ['p', 'P', 'i', 1, 1, 't'], ['x'], ['p', 'P', 'i', 1, 1, 'f'],
+                                         ['m', 'M', 'i', '', 1, 0], ['x'], ['s', 'S', 's', 1], ['x'],
+                                         ['p', 'P', 'i', 0, 1, 'f']]}
     peer = {'name': 'org.freedesktop.DBus.Peer', 'ops': [['m', 'Ping', 'i', '', 1, 0]]}
     qs = [[None, 'Foo', 3], [None, 'Foo', 2], ['org.a.B', 'Z', 0], ['', 'Z', 1], [None, 'Ping', 0], ['org.a.B', 'Ping', 0],
           [None, 'M', 2], [None, 'M', 1], [None, 'A', 1], [None, 'B', 1]]
     return [doc([a], queries=qs), doc([a], replace=1, queries=qs), doc([a], known=[stale], queries=qs),
             doc([a], known=[stale], replace=1, queries=qs), doc([a, same_name, cached], queries=qs),
             doc([a, same_name, cached], objkind='dbusobject', queries=qs + [[None, 'GetAll', 1], [None, 'Set', 3]]),
+            doc([redecl], queries=qs + [[None, 'M', 1]]), doc([redecl, a], replace=1, queries=qs),
             doc([], queries=qs), doc([a], known=[peer], queries=qs), doc([a], known=[peer], replace=1, queries=qs),
             doc([{'name': 'x.y', 'ops': []}], queries=qs)]
 
